@@ -103,7 +103,45 @@ fn conj(mut xs: Vec<F>) -> F {
 pub fn gen_family(r: &mut Rng, n: usize) -> Vec<F> {
     let at = |i: usize| F::Atom(i % n);
     let not = |f: F| F::Not(Box::new(f));
-    match r.below(11) {
+    match r.below(12) {
+        // hub: ONE statement occurs in its own condition below another connective (guarded self
+        // reference: not s1 and (s2 -> not s0)), every other statement attacks, follows or ignores the
+        // hub: several stable models, some of them inside path cubes that carry the hub's own literal
+        11 => {
+            let hub = r.usize(n);
+            let lit = |r: &mut Rng, i: usize| if r.bool() { F::Atom(i % n) } else { F::Not(Box::new(F::Atom(i % n))) };
+            let bin = |r: &mut Rng, a: F, b: F| {
+                let (a, b) = if r.bool() { (a, b) } else { (b, a) };
+                let (a, b) = (Box::new(a), Box::new(b));
+                match r.below(5) {
+                    0 => F::And(a, b),
+                    1 => F::Or(a, b),
+                    2 => F::Imp(a, b),
+                    3 => F::Xor(a, b),
+                    _ => F::Iff(a, b),
+                }
+            };
+            (0..n)
+                .map(|i| {
+                    if i == hub {
+                        let o1 = hub + 1 + r.usize(n.max(2) - 1);
+                        let o2 = hub + 1 + r.usize(n.max(2) - 1);
+                        let me = lit(r, hub);
+                        let l2 = lit(r, o2);
+                        let inner = bin(r, l2, me);
+                        let l1 = lit(r, o1);
+                        bin(r, l1, inner)
+                    } else {
+                        match r.below(6) {
+                            0 | 1 | 2 => F::Not(Box::new(F::Atom(hub))),
+                            3 => F::Atom(hub),
+                            4 => { let j = r.usize(n); lit(r, j) }
+                            _ => { let a = lit(r, hub); let j = r.usize(n); let b = lit(r, j); bin(r, a, b) }
+                        }
+                    }
+                })
+                .collect()
+        }
         // adjacent pairs: every condition is the SAME connective over the next two statements
         // (s0 <- op(s0,s1), s1 <- op(s2,s3), ...): conditions that differ only in where the operands
         // are split (exercises anything keyed by a rendering of the condition)
@@ -425,6 +463,26 @@ pub fn gen(r: &mut Rng, cases: usize, size: usize, extra: &[String], out: &mut O
                 })
                 .collect();
             (n, acs)
+        } else if profile == "wider" {
+            // more statements than a byte can number (256): anything that narrows a statement index
+            let n = r.range(257.min(maxn), maxn);
+            (n, gen_wide(r, n))
+        } else if profile == "many" {
+            // a small core plus k independent mutual-attack pairs: the core's candidates times 2^k, so
+            // that thresholds on the NUMBER of candidates / models (dozens to hundreds) are crossed
+            let c = r.range(2, 4);
+            let k = r.range(3, 5);
+            let n = c + 2 * k;
+            let mut acs: Vec<F> = if r.chance(1, 2) { gen_family(r, c) } else { (0..c).map(|_| gen_f(r, c, 2)).collect() };
+            for j in 0..k {
+                let x = c + 2 * j;
+                acs.push(F::Not(Box::new(F::Atom(x + 1))));
+                acs.push(F::Not(Box::new(F::Atom(x))));
+            }
+            (n, acs)
+        } else if profile == "parity" {
+            // the parity frameworks are built by the request itself (ngparity); the case's own framework is trivial
+            (1, vec![F::Top])
         } else if profile == "wide" {
             let n = if r.chance(3, 4) { r.range(65.min(maxn), maxn) } else { r.range(8.min(maxn), maxn) };
             (n, gen_wide(r, n))
@@ -537,7 +595,30 @@ pub fn gen(r: &mut Rng, cases: usize, size: usize, extra: &[String], out: &mut O
                 }
                 out.line("adump native");
             }
-            "wide" => {
+            "many" => {
+                for p in ["native", "hybrid", "hybridpre"] {
+                    out.line(&format!("build {p}"));
+                }
+                let mut reqs: Vec<String> = vec!["stable native".into(), "stmca native".into(), "stmcb native".into(), "stmca hybrid".into(),
+                    "stmcb hybridpre".into(), "ng native Simple stable".into(), "ng native MinModMaxVarImpMinPaths twoval".into()];
+                for i in (1..reqs.len()).rev() {
+                    reqs.swap(i, r.usize(i + 1));
+                }
+                for q in reqs {
+                    out.line(&q);
+                }
+                out.line("adump native");
+            }
+            "parity" => {
+                // s0: not s1; s1: not s0; a chain s2: s0, s3: s2, ...; last: exclusive or of s0 and the chain:
+                // few nodes, but path counts around 2^(n-2) - arithmetic on the counts meets the word size.
+                // Exactly two two-valued models, both stable, known by construction.
+                for h in HEUS {
+                    let chain = r.range(40.min(maxn.saturating_sub(3)), maxn.saturating_sub(3));
+                    out.line(&format!("ngparity {chain} {h} {}", ["stable", "twoval", "iter"][r.usize(3)]));
+                }
+            }
+            "wide" | "wider" => {
                 for p in ["native", "hybrid", "hybridpre", "bio"] {
                     out.line(&format!("build {p}"));
                 }
@@ -872,7 +953,67 @@ impl Exec {
                     let (s2, r2) = crossbeam_channel::unbounded();
                     adf.two_val_nogood_channel(Heuristic::MinModMaxVarImpMinPaths, s2);
                     let tv = r2.iter().count();
-                    Some(format!("count={} distinct={} channel={ch} twoval={tv}", it.len(), d.len()))
+                    // the same through a bounded channel whose consumer is slower than the search
+                    let bd = slow_consumer(2, |s| adf.stable_nogood_channel(Heuristic::Simple, s));
+                    let mut bdd = bd.clone();
+                    bdd.sort();
+                    bdd.dedup();
+                    Some(format!("count={} distinct={} channel={ch} twoval={tv} bounded={} bounded-distinct={}", it.len(), d.len(), bd.len(), bdd.len()))
+                }));
+                match r {
+                    Ok(Some(x)) => out.line(&format!("~ {x}")),
+                    Ok(None) => out.line("~ bad-request"),
+                    Err(_) => out.line("~ panic"),
+                }
+                true
+            }
+            "ngparity" if ws.len() == 4 => {
+                out.line(l);
+                out.flush();
+                let chain: usize = ws[1].parse().unwrap_or(1);
+                let heu = ws[2].to_string();
+                let mode = ws[3].to_string();
+                let r = catch_unwind(AssertUnwindSafe(|| {
+                    let n = chain + 3;
+                    let mut txt = String::new();
+                    for i in 0..n {
+                        txt += &format!("s(s{i}).");
+                    }
+                    txt += "ac(s0,neg(s1)).ac(s1,neg(s0)).";
+                    for i in 0..chain {
+                        txt += &format!("ac(s{},s{}).", 2 + i, if i == 0 { 0 } else { 1 + i });
+                    }
+                    let mut par = format!("s{}", chain + 1);
+                    for m in (1..=chain).rev() {
+                        let v = if m == 1 { 0 } else { m };
+                        par = format!("xor(s{v},{par})");
+                    }
+                    txt += &format!("ac(s{},{par}).", n - 1);
+                    let src: &'static str = Box::leak(txt.into_boxed_str());
+                    let parser: &'static AdfParser<'static> = Box::leak(Box::new(AdfParser::default()));
+                    parser.parse()(src).ok()?;
+                    let mut adf = Adf::from_parser(parser);
+                    let h = match heu.as_str() {
+                        "Simple" => Heuristic::Simple,
+                        "MinModMinPathsMaxVarImp" => Heuristic::MinModMinPathsMaxVarImp,
+                        _ => Heuristic::MinModMaxVarImpMinPaths,
+                    };
+                    let vs: Vec<Vec<Term>> = match mode.as_str() {
+                        "iter" => adf.stable_nogood(h).collect(),
+                        "twoval" => {
+                            let (s, r) = crossbeam_channel::unbounded();
+                            adf.two_val_nogood_channel(h, s);
+                            r.iter().collect()
+                        }
+                        _ => {
+                            let (s, r) = crossbeam_channel::unbounded();
+                            adf.stable_nogood_channel(h, s);
+                            r.iter().collect()
+                        }
+                    };
+                    let mut xs: Vec<String> = vs.iter().map(|v| tfu(v)).collect();
+                    xs.sort();
+                    Some(xs.join(" "))
                 }));
                 match r {
                     Ok(Some(x)) => out.line(&format!("~ {x}")),
@@ -1244,7 +1385,9 @@ impl Exec {
         let mut wr = Rng::new(wseed);
         let pool = ["a", "b", "x", "and", "andy", "or", "c", "neg1", "s", "ac", "iff", "xor", "imp", "10", "9", "2", "02", "B", "a10", "a9", "a2", "Zz", "v", "f",
             // long labels with long common prefixes (orders that look only at a prefix go wrong)
-            "argument", "argument1", "argument10", "argument2", "statementA", "statementB", "statement10", "negative", "neg", "cv"];
+            "argument", "argument1", "argument10", "argument2", "statementA", "statementB", "statement10", "negative", "neg", "cv",
+            // words that mean something to an expression parser downstream
+            "true", "false", "True", "not", "0", "1"];
         // quoted labels (no blank, no comma, none of the characters biodivine rejects: D6)
         let qpool = ["gr\u{f6}\u{df}e", "it's", "x\\y", "a-b", "p.q", "\u{e4}", "A_1", "z#", "caf\u{e9}", "%"];
         let mut labels: Vec<String> = Vec::new();
@@ -1378,14 +1521,22 @@ impl Exec {
         set.sort();
         let hex = |s: &str| s.bytes().map(|b| format!("{b:02x}")).collect::<String>();
         let j = |v: &[String]| if v.is_empty() { "-".to_string() } else { v.join(",") };
+        // stdout exactly as printed, line by line (hex of the bytes of each line without its line break;
+        // under the same discipline as `lines=`: a multiset when a rewriting flag is set)
+        let mut printed: Vec<String> = stdout.split_terminator('\n').map(|l| if l.is_empty() { "e".to_string() } else { hex(l) }).collect();
+        if unordered {
+            printed.sort();
+        }
         Some(vec![
             "= ran".into(),
+            // last field: the exact TEXT of the file handed to the binary (hex of its UTF-8 bytes)
             format!(
-                "clirun {mode} {sort} {flags} {heu} {perm} {} {}",
+                "clirun {mode} {sort} {flags} {heu} {perm} {} {} {}",
                 order.iter().map(|x| x.to_string()).collect::<Vec<_>>().join(","),
-                labels.iter().map(|l| hex(l)).collect::<Vec<_>>().join(",")
+                labels.iter().map(|l| hex(l)).collect::<Vec<_>>().join(","),
+                hex(&txt)
             ),
-            format!("= exit={code} wellformed={} lines={}", wellformed as u8, j(&seq)),
+            format!("= exit={code} wellformed={} lines={} printed={}", wellformed as u8, j(&seq), j(&printed)),
             format!("~ exit={code} set={}", j(&set)),
             // the documented order of the sections is judged by the specification too: the printed
             // lines, in order, are handed over and split into the sections' blocks there
@@ -1476,7 +1627,9 @@ impl Exec {
         // distinct labels from several classes: plain, keyword-like, numeric (lx and an orders differ)
         let pool = ["a", "b", "x", "and", "andy", "or", "c", "neg1", "s", "ac", "iff", "xor", "imp", "10", "9", "2", "02", "B", "a10", "a9", "a2", "Zz", "v", "f",
             // long labels with long common prefixes (orders that look only at a prefix go wrong)
-            "argument", "argument1", "argument10", "argument2", "statementA", "statementB", "statement10", "negative", "neg", "cv"];
+            "argument", "argument1", "argument10", "argument2", "statementA", "statementB", "statement10", "negative", "neg", "cv",
+            // words that mean something to an expression parser downstream
+            "true", "false", "True", "not", "0", "1"];
         let mut labels: Vec<String> = Vec::new();
         while labels.len() < n {
             let cand = if lr.chance(1, 4) {
@@ -1697,6 +1850,7 @@ impl Exec {
     }
 
     fn ng(&mut self, channel: bool, p: &str, heu: &str, stable: bool) -> Option<(String, String)> {
+        let nstat = self.n;
         // Rand is not modelled step by step: it runs on its own object
         let mut tmp: Option<Adf> = None;
         if heu.starts_with("Rand:") {
@@ -1729,18 +1883,32 @@ impl Exec {
             }
         };
         let vs: Vec<Vec<Term>> = if channel {
-            let (s, r) = crossbeam_channel::unbounded();
-            if stable {
-                a.stable_nogood_channel(h, s);
+            // the capacity is a function of the request (the property holds for every channel the caller hands in):
+            // unbounded with the consumer running afterwards, or bounded(1..3) with a consumer on another
+            // thread that starts late and is slower than the search, so that sends meet a full channel
+            let cap = splitmix(heu.len() as u64 * 31 + nstat as u64 * 7 + stable as u64) % 4;
+            if cap == 0 {
+                let (s, r) = crossbeam_channel::unbounded();
+                if stable {
+                    a.stable_nogood_channel(h, s);
+                } else {
+                    a.two_val_nogood_channel(h, s);
+                }
+                // the consumer loop ends only if the sender was dropped
+                let mut got = Vec::new();
+                for m in r {
+                    got.push(m);
+                }
+                got
             } else {
-                a.two_val_nogood_channel(h, s);
+                slow_consumer(cap as usize, |s| {
+                    if stable {
+                        a.stable_nogood_channel(h, s);
+                    } else {
+                        a.two_val_nogood_channel(h, s);
+                    }
+                })
             }
-            // the consumer loop ends only if the sender was dropped
-            let mut got = Vec::new();
-            for m in r {
-                got.push(m);
-            }
-            got
         } else if stable {
             a.stable_nogood(h).collect()
         } else {
@@ -1756,6 +1924,27 @@ impl Exec {
         };
         Some((eq, set_s(&vs)))
     }
+}
+
+/// runs `produce` with the sender of a bounded channel while a consumer on another thread starts late
+/// and takes the messages slowly; returns what the consumer received until the channel was closed
+pub fn slow_consumer<P: FnOnce(crossbeam_channel::Sender<Vec<Term>>)>(cap: usize, produce: P) -> Vec<Vec<Term>> {
+    let (s, r) = crossbeam_channel::bounded::<Vec<Term>>(cap);
+    std::thread::scope(|sc| {
+        let consumer = sc.spawn(move || {
+            std::thread::sleep(std::time::Duration::from_millis(3));
+            let mut got = Vec::new();
+            for m in r {
+                got.push(m);
+                if got.len() < 64 {
+                    std::thread::sleep(std::time::Duration::from_micros(40));
+                }
+            }
+            got
+        });
+        produce(s);
+        consumer.join().unwrap_or_default()
+    })
 }
 
 pub fn build_formula(bdd: &mut adf_bdd::obdd::Bdd, f: &F) -> Term {
